@@ -310,7 +310,26 @@ pub fn cont_option_inner_null() {
     match r { Ok(v) => { oblige!(v.len() == 2 && v[1].is_none() && v[0].is_none() == matches!(n, Node::Null), "C06:none_exactly_for_null_otherwise_the_content"); } Err(_) => { oblige!(ex.log.n > 0, "C02:err_only_if_fault"); } }
 }
 
+/// fixed-size arrays of arity 0, 1 and 3 (cont_array2 has arity 2): exactly the arity is required, whatever N is
+pub fn cont_arrays_n() {
+    reset_all(&D_CONT);
+    let len = nd::below(5); let mut i = 0; while i < len { put(i, any_u8ish()); i += 1; }
+    let n = Node::Seq(0, len);
+    let o = ValuePointerRef::Origin; let l = o.push_index(1); let p = Path::ROOT.idx(1);
+    macro_rules! go { ($N:expr) => {{
+        rec::reset();
+        let mut ex = Expect::EMPTY; let mut want = [0u8; $N];
+        if len as usize != $N { ex.log.push(report(K_BADLEN, p, (len as u32 & 15) | (($N as u32) << 4), 0)); }
+        else { let mut j = 0u8; while (j as usize) < $N { let before = ex.log.n; if let Some(v) = u8_spec(arena::node(j), p.idx(j as usize), &mut ex) { want[j as usize] = v; } if ex.log.n != before { ex.log.push(handover(p.idx(j as usize))); } j += 1; } }
+        let r = <[u8; $N] as Deserr<Rec>>::deserialize_from_value::<KV>(to_value(n), l);
+        match r { Ok(a) => { oblige!(len as usize == $N, "C06:ok_only_for_a_sequence_of_exactly_the_arity"); oblige!(ex.log.n == 0 && a == want, "C06:element_i_comes_from_payload_element_i"); oblige!(rec::calls() == 0, "C01:ok_only_if_nothing_reported"); }
+                  Err(e) => { oblige!(ex.log.n > 0, "C02:err_only_if_fault"); oblige!(ex.log.n == 0 || ex.log.ev[0].kind() != K_BADLEN || (e.n >= 1 && e.ev[0].unstopped() == ex.log.ev[0]), "C06:wrong_arity_reports_the_whole_sequence_and_the_expected_length");
+                              oblige!(e.same(&rec::global()) && agree_until_stop(&e, &ex.log) && (!no_stop(&e) || e.n == ex.log.n) && stop_then_handover(&e), "C01,C02,C03,C04:array_reports"); } }
+    }}; }
+    go!(0); go!(1); go!(3);
+}
+
 pub fn registry() -> Vec<(&'static str, crate::Body)> {
     vec![("cont_vec", cont_vec as crate::Body), ("cont_array2", cont_array2), ("cont_tuple2", cont_tuple2), ("cont_tuple3", cont_tuple3),
-         ("cont_option_box", cont_option_box), ("cont_sets", cont_sets), ("cont_maps", cont_maps), ("order_maps_3", order_maps_3), ("cont_cs", cont_cs), ("cont_jvalue", cont_jvalue), ("cont_zst", cont_zst), ("cont_option_inner_null", cont_option_inner_null)]
+         ("cont_option_box", cont_option_box), ("cont_sets", cont_sets), ("cont_maps", cont_maps), ("order_maps_3", order_maps_3), ("cont_cs", cont_cs), ("cont_jvalue", cont_jvalue), ("cont_zst", cont_zst), ("cont_option_inner_null", cont_option_inner_null), ("cont_arrays_n", cont_arrays_n)]
 }
